@@ -33,12 +33,13 @@ ProgsC07 == {
   P(<<Tr("chop", "-")>>, <<Tr("same", "s")>>, <<Rd, Rd>>),
   P(<<Tr("grow", "g")>>, <<Rd>>, <<Rd, Rd>>),
   P(<<Wr(<<"p">>), Rd>>, <<Wr(<<"u", "v", "w">>)>>, <<Rd, Rd>>),
-  P(<<Tr("append", "x"), Rd>>, <<Tr("chop", "-")>>, <<Wr(<<>>)>>)
+  P(<<Tr("append", "x"), Rd>>, <<Tr("chop", "-")>>, <<Wr(<<>>)>>),
+  P(<<Tr("clear", "-"), Rd>>, <<Tr("append", "y")>>, <<Rd>>)
 }
 \* C07: one failing step inside Transform, all length relations
 \* ... and a failing truncation at the start of Write (shorter and longer new contents): Write reports the error and the
 \* old contents stay (failures of the copy that follows are documented as not atomic and are not injected)
-ProgsFault == { P(<<Tr(k, "t")>>, <<>>, <<>>) : k \in {"append", "grow", "grow3", "chop", "same"} }
+ProgsFault == { P(<<Tr(k, "t")>>, <<>>, <<>>) : k \in {"append", "grow", "grow3", "chop", "same", "clear"} }
               \cup { P(<<Wr(<<"n">>)>>, <<>>, <<>>), P(<<Wr(<<"n", "e", "w">>)>>, <<>>, <<>>) }
 
 MCProgs == CASE Family = "C06" -> ProgsC06 [] Family = "C07" -> ProgsC07 [] OTHER -> ProgsFault
